@@ -773,3 +773,107 @@ func (p *Prog) LoopsOver(f *Func, pred VPred) []ast.Stmt {
 	})
 	return out
 }
+
+// YieldSites returns the calls in iterator literal lit that hand an element to the consumer: calls of the
+// literal's (single) function-typed parameter, whatever it is called, and calls of a local function value
+// whose body calls that parameter (a filtering wrapper such as `yield := func(r RPC) bool { return r.Size() == 0 || yieldRPC(r) }`).
+func (p *Prog) YieldSites(lit *Func) []CallSite {
+	var consumer types.Object
+	if lit.Type != nil && lit.Type.Params != nil {
+		for _, fl := range lit.Type.Params.List {
+			for _, nm := range fl.Names {
+				if o := lit.Info().Defs[nm]; o != nil {
+					if _, isFn := o.Type().Underlying().(*types.Signature); isFn {
+						consumer = o
+					}
+				}
+			}
+		}
+	}
+	if consumer == nil {
+		return nil
+	}
+	calleeObj := func(f *Func, ce *ast.CallExpr) types.Object {
+		if id, ok := unparen(ce.Fun).(*ast.Ident); ok {
+			return f.Info().Uses[id]
+		}
+		return nil
+	}
+	// wrappers: locals of lit defined once as a function literal that calls the consumer
+	wrappers := map[types.Object]bool{}
+	for _, ch := range lit.Children {
+		as, ok := p.parents[ch.Lit].(*ast.AssignStmt)
+		if !ok || len(as.Lhs) != 1 || len(as.Rhs) != 1 || unparen(as.Rhs[0]) != ast.Expr(ch.Lit) {
+			continue
+		}
+		id, ok := as.Lhs[0].(*ast.Ident)
+		if !ok {
+			continue
+		}
+		obj := lit.Info().Defs[id]
+		if obj == nil {
+			continue
+		}
+		if d, single := p.R(lit).SingleDef(obj); !single || d.rhs == nil {
+			continue
+		}
+		for _, cs := range p.FuncCalls(ch, false) {
+			if calleeObj(ch, cs.Call) == consumer {
+				wrappers[obj] = true
+			}
+		}
+	}
+	var out []CallSite
+	for _, cs := range p.FuncCalls(lit, false) {
+		o := calleeObj(lit, cs.Call)
+		if o != nil && (o == consumer && len(wrappers) == 0 || wrappers[o]) {
+			out = append(out, cs)
+		}
+	}
+	return out
+}
+
+// ConsumerCalls returns the direct calls of the iterator's consumer parameter, in lit and in its wrappers.
+func (p *Prog) ConsumerCalls(lit *Func) []CallSite {
+	var consumer types.Object
+	if lit.Type != nil && lit.Type.Params != nil {
+		for _, fl := range lit.Type.Params.List {
+			for _, nm := range fl.Names {
+				if o := lit.Info().Defs[nm]; o != nil {
+					if _, isFn := o.Type().Underlying().(*types.Signature); isFn {
+						consumer = o
+					}
+				}
+			}
+		}
+	}
+	var out []CallSite
+	var walk func(f *Func)
+	walk = func(f *Func) {
+		for _, cs := range p.FuncCalls(f, false) {
+			if id, ok := unparen(cs.Call.Fun).(*ast.Ident); ok && consumer != nil && f.Info().Uses[id] == consumer {
+				out = append(out, cs)
+			}
+		}
+		for _, ch := range f.Children {
+			walk(ch)
+		}
+	}
+	walk(lit)
+	return out
+}
+
+// isYieldCall matches the canonical value of a call that is one of the given yield sites.
+func isYieldCall(sites []CallSite) VPred {
+	return func(v *V) bool {
+		if v == nil || v.Kind != "call" {
+			return false
+		}
+		for _, s := range sites {
+			if v.Node == ast.Node(s.Call) {
+				return true
+			}
+		}
+		return false
+	}
+}
